@@ -180,7 +180,7 @@ fn check_cfg(cfg: &Cfg, pairs: &[(Vec<f64>, Vec<f64>)], st: &mut Stats) {
     if cfg.weights.iter().any(|w| *w < 0.0) || cfg.rates.iter().any(|r| !matches!(r, Rate::Raw | Rate::Zero)) {
         st.nontrivial += 1;
     }
-    let net = Net { n: 3, edges: vec![(0, 1, 1.0), (1, 2, 1.0)] };
+    let net = Net { n: 3, edges: vec![(0, 1, 1.0), (1, 2, 1.0)], xy: None };
     let graph = Arc::new(net.graph());
     let e0 = *graph.get_edge(&EdgeId(0)).unwrap();
     let e1 = *graph.get_edge(&EdgeId(1)).unwrap();
@@ -272,7 +272,7 @@ fn check_edge_traversal(cfg: &Cfg, deltas: &[(Vec<f64>, Vec<f64>)], st: &mut Sta
         Ok(c) => Arc::new(c),
         Err(_) => return,
     };
-    let net = Net { n: 3, edges: vec![(0, 1, 1.0), (1, 2, 1.0)] };
+    let net = Net { n: 3, edges: vec![(0, 1, 1.0), (1, 2, 1.0)], xy: None };
     let graph = Arc::new(net.graph());
     let k = cfg.k();
     let size = (k * 1000) as u64 + if cfg.net == NetRate::Zero { 0 } else { 5 } + cfg.rates.iter().map(|r| if *r == Rate::Raw { 0 } else { 10 }).sum::<u64>();
@@ -407,7 +407,7 @@ pub fn run(tier: Tier) -> i32 {
                     let sm = Arc::new(cfg.state_model());
                     let scaled = Cfg { weights: cfg.weights.iter().map(|w| w * 3.0).collect(), ..cfg.clone() };
                     if let (Ok(a), Ok(b)) = (cfg.cost_model(sm.clone()), scaled.cost_model(sm.clone())) {
-                        let g = Net { n: 3, edges: vec![(0, 1, 1.0), (1, 2, 1.0)] }.graph();
+                        let g = Net { n: 3, edges: vec![(0, 1, 1.0), (1, 2, 1.0)], xy: None }.graph();
                         let e1 = *g.get_edge(&EdgeId(1)).unwrap();
                         for (p, nx) in pairs.iter().step_by(7) {
                             let ps: Vec<StateVar> = p.iter().map(|x| StateVar(*x)).collect();
